@@ -121,18 +121,24 @@ impl<const BITS: usize, const LIMBS: usize> Uint<BITS, LIMBS> {
         let mut power = Self::ONE;
         for digit in iter.by_ref() {
             if digit >= base {
+                #[cfg(feature = "recmo_uint_verif")]
+                crate::verif_hooks::hit(90);
                 return Err(BaseConvertError::InvalidDigit(digit, base));
             }
 
             // Add digit to result
             let overflow = addmul_nx1(&mut result.limbs, power.as_limbs(), digit);
             if overflow != 0 || result.limbs[LIMBS - 1] > Self::MASK {
+                #[cfg(feature = "recmo_uint_verif")]
+                crate::verif_hooks::hit(if overflow != 0 { 91 } else { 92 });
                 return Err(BaseConvertError::Overflow);
             }
 
             // Update power
             let overflow = mul_nx1(&mut power.limbs, base);
             if overflow != 0 || power.limbs[LIMBS - 1] > Self::MASK {
+                #[cfg(feature = "recmo_uint_verif")]
+                crate::verif_hooks::hit(93);
                 // Following digits must be zero
                 break;
             }
@@ -142,6 +148,8 @@ impl<const BITS: usize, const LIMBS: usize> Uint<BITS, LIMBS> {
                 return Err(BaseConvertError::InvalidDigit(digit, base));
             }
             if digit != 0 {
+                #[cfg(feature = "recmo_uint_verif")]
+                crate::verif_hooks::hit(94);
                 return Err(BaseConvertError::Overflow);
             }
         }
@@ -183,6 +191,8 @@ impl<const BITS: usize, const LIMBS: usize> Uint<BITS, LIMBS> {
                 carry >>= 64;
             }
             if carry > 0 || (LIMBS != 0 && result.limbs[LIMBS - 1] > Self::MASK) {
+                #[cfg(feature = "recmo_uint_verif")]
+                crate::verif_hooks::hit(if carry > 0 { 95 } else { 96 });
                 return Err(BaseConvertError::Overflow);
             }
         }
@@ -213,6 +223,8 @@ impl<const LIMBS: usize> Iterator for SpigotLittle<LIMBS> {
             remainder %= u128::from(self.base);
         }
         if zero == 0 {
+            #[cfg(feature = "recmo_uint_verif")]
+            crate::verif_hooks::hit(97);
             None
         } else {
             Some(remainder as u64)
